@@ -80,6 +80,7 @@ type PathResult struct {
 	Instrs        int
 	Segs          int
 	Threads       int
+	UsesStub      bool
 }
 
 type HarnessResult struct {
@@ -102,6 +103,7 @@ type HarnessResult struct {
 	Instrs        int64                        `json:"ssa_instructions_executed"`
 	Segs          int                          `json:"thread_segments"`
 	MaxThreads    int                          `json:"max_threads"`
+	UsesStub      bool                         `json:"uses_harness_stub"`
 	Queries       int                          `json:"solver_queries"`
 	SolverTime    float64                      `json:"solver_time_s"`
 	Wall          float64                      `json:"wall_s"`
@@ -356,6 +358,9 @@ func (ex *Explorer) merge(res *HarnessResult, pr *PathResult) {
 	}
 	res.Instrs += int64(pr.Instrs)
 	res.Segs += pr.Segs
+	if pr.UsesStub {
+		res.UsesStub = true
+	}
 	if pr.Threads > res.MaxThreads {
 		res.MaxThreads = pr.Threads
 	}
@@ -405,6 +410,7 @@ func (in *Interp) runPath(fn *ssa.Function, it *WorkItem) *PathResult {
 	in.unwind = in.ex.cfg.Unwind
 	in.mapOrderAll = false
 	in.knownActive = ""
+	in.pathStubs = map[string]value{}
 	in.res = &PathResult{Reached: map[string]map[string]string{}}
 	in.sch = newSched(in)
 	pe := in.sch.runMain(func() {
